@@ -410,15 +410,17 @@ class Ctx:
         return r
 
     def branch(self, cond) -> bool:
+        raw = cond
         cond = z3.simplify(cond)
         if z3.is_true(cond):
             return True
         if z3.is_false(cond):
             return False
-        return self._decide(cond, None)
+        return self._decide(cond, None, raw)
 
-    def _decide(self, cond, aux):
-        fp = zlib.crc32(cond.sexpr().encode())
+    def _decide(self, cond, aux, raw=None):
+        # fingerprint of the expression as the harness built it (z3.simplify may order arguments by AST id)
+        fp = zlib.crc32((raw if raw is not None else cond).sexpr().encode())
         if self.pos < len(self.prefix):
             d, pfp, _aux = self.prefix[self.pos]
             if pfp != fp:
